@@ -272,6 +272,52 @@ Lemma combine_keys cdims es :
   combine (map (key_of cdims) es ++ [last_key cdims]) (map w_addr es) = map (expected_entry cdims) es.
 Proof. induction es as [|e r IH]; [reflexivity|]. cbn [map app combine]. now rewrite IH. Qed.
 
+(* the 24 header bytes as the reader decodes them *)
+Lemma header_fields n :
+  let h := node_header n in
+  slice h 0 4 = Ok SIG_TREE /\ index h 4 = Ok 1 /\ index h 5 = Ok 0 /\ rd_le h 6 2 = Ok (wrap16 n) /\
+  slice_from h 8 = Ok (le 8 U64MAX ++ le 8 U64MAX) /\ slice_from h (8 + 8) = Ok (le 8 U64MAX).
+Proof.
+  intros h. assert (Hw : wrap16 n < 65536) by (unfold wrap16; apply N.mod_lt; lia).
+  refine (conj _ (conj _ (conj _ (conj _ (conj _ _))))).
+  - apply (slice_app' [] SIG_TREE ([1] ++ [0] ++ le 2 (wrap16 n) ++ le 8 U64MAX ++ le 8 U64MAX)); reflexivity.
+  - apply (index_app SIG_TREE 1 ([0] ++ le 2 (wrap16 n) ++ le 8 U64MAX ++ le 8 U64MAX)). reflexivity.
+  - apply (index_app (SIG_TREE ++ [1]) 0 (le 2 (wrap16 n) ++ le 8 U64MAX ++ le 8 U64MAX)). reflexivity.
+  - apply (rd_le_eq h (SIG_TREE ++ [1] ++ [0]) 2 2 (wrap16 n) (le 8 U64MAX ++ le 8 U64MAX)); auto;
+      try (rewrite pow256_2; lia); try (unfold h, node_header; now rewrite <- !app_assoc).
+  - apply (slice_from_eq h (SIG_TREE ++ [1] ++ [0] ++ le 2 (wrap16 n))); [|reflexivity].
+    unfold h, node_header. now rewrite <- !app_assoc.
+  - apply (slice_from_eq h (SIG_TREE ++ [1] ++ [0] ++ le 2 (wrap16 n) ++ le 8 U64MAX)); [|reflexivity].
+    unfold h, node_header. now rewrite <- !app_assoc.
+Qed.
+
+(* ParseBTreeV1Node on a file that holds node_header n followed by body: everything up to the key loop *)
+Lemma parse_node_hdr cdims ndims n (body pre suf : list N) addr :
+  addr = blen pre -> addr + 24 <= MAXINT64 ->
+  parse_node (pre ++ node_header n ++ body ++ suf) addr 8 ndims cdims
+  = if wrap16 n =? 0 then Ok (mk_bnode 1 0 (wrap16 n) U64MAX U64MAX [] [])
+    else match read_bytes_at ((pre ++ node_header n) ++ body ++ suf) (addr + 24)
+                             (wrap16 n * (8 + 8 * N.of_nat ndims + 8) + (8 + 8 * N.of_nat ndims)) with
+         | None => Err
+         | Some data =>
+             r <- parse_entries (N.to_nat (wrap16 n)) 0 (wrap16 (wrap16 n + 1)) ndims 8 cdims data 0;;
+             Ok (mk_bnode 1 0 (wrap16 n) U64MAX U64MAX (fst r) (snd r))
+         end.
+Proof.
+  intros Ha Hm.
+  unfold parse_node. change (8 + 8 * 2) with 24. bnorm.
+  rewrite (read_at_app pre (node_header n) (body ++ suf) addr 24); auto;
+    try (now rewrite blen_node_header); try (unfold MAXINT64 in *; lia).
+  destruct (header_fields n) as (H1 & H2 & H3 & H4 & H5 & H6).
+  rewrite H1. cbn [obind]. change (bytes_eqb SIG_TREE SIG_TREE) with true. cbn [negb].
+  rewrite H2, H3, H4, H5, H6. cbn [obind].
+  rewrite read_address_le8 by (unfold U64MAX; lia).
+  rewrite read_address_le8' by (unfold U64MAX; lia).
+  assert (Hw : wrap64 (addr + 24) = addr + 24).
+  { unfold wrap64. apply N.mod_small. unfold MAXINT64 in Hm. lia. }
+  rewrite Hw. rewrite (app_assoc pre (node_header n) (body ++ suf)). reflexivity.
+Qed.
+
 Lemma parse_node_leaf cdims es (f pre suf : list N) addr :
   all_pos cdims = true -> Forall (fun e => entry_ok (length cdims) e = true) es ->
   es <> [] -> N.of_nat (length es) < 65535 ->
@@ -289,46 +335,18 @@ Proof.
   assert (Hf' : f = pre ++ node_header n ++ body ++ suf).
   { subst f. unfold serialize_leaf. fold n. unfold body. now rewrite <- !app_assoc. }
   clear Hf. subst f.
-  unfold parse_node. change (8 + 8 * 2) with 24. bnorm.
-  rewrite (read_at_app pre (node_header n) (body ++ suf) addr 24); auto;
-    try (now rewrite blen_node_header); try (unfold MAXINT64 in *; lia).
-  (* the 24 header bytes *)
-  set (h := node_header n).
-  assert (H1 : slice h 0 4 = Ok SIG_TREE).
-  { apply (slice_app' [] SIG_TREE ([1] ++ [0] ++ le 2 (wrap16 n) ++ le 8 U64MAX ++ le 8 U64MAX)); reflexivity. }
-  assert (H2 : index h 4 = Ok 1).
-  { apply (index_app SIG_TREE 1 ([0] ++ le 2 (wrap16 n) ++ le 8 U64MAX ++ le 8 U64MAX)). reflexivity. }
-  assert (H3 : index h 5 = Ok 0).
-  { apply (index_app (SIG_TREE ++ [1]) 0 (le 2 (wrap16 n) ++ le 8 U64MAX ++ le 8 U64MAX)). reflexivity. }
-  assert (H4 : rd_le h 6 2 = Ok n).
-  { apply (rd_le_eq h (SIG_TREE ++ [1] ++ [0]) 2 2 n (le 8 U64MAX ++ le 8 U64MAX)); auto;
-      try (rewrite pow256_2; lia).
-    unfold h, node_header. rewrite wrap16_small by lia. now rewrite <- !app_assoc. }
-  assert (H5 : slice_from h 8 = Ok (le 8 U64MAX ++ le 8 U64MAX)).
-  { apply (slice_from_eq h (SIG_TREE ++ [1] ++ [0] ++ le 2 (wrap16 n))); [|reflexivity].
-    unfold h, node_header. now rewrite <- !app_assoc. }
-  assert (H6 : slice_from h (8 + 8) = Ok (le 8 U64MAX)).
-  { apply (slice_from_eq h (SIG_TREE ++ [1] ++ [0] ++ le 2 (wrap16 n) ++ le 8 U64MAX)); [|reflexivity].
-    unfold h, node_header. now rewrite <- !app_assoc. }
-  rewrite H1. cbn [obind]. change (bytes_eqb SIG_TREE SIG_TREE) with true. cbn [negb].
-  rewrite H2, H3, H4, H5, H6. cbn [obind].
+  rewrite parse_node_hdr by (auto; unfold MAXINT64 in *; lia).
+  rewrite wrap16_small by lia.
   replace (n =? 0) with false by (symmetry; apply N.eqb_neq; auto).
-  rewrite read_address_le8 by (unfold U64MAX; lia).
-  rewrite read_address_le8' by (unfold U64MAX; lia).
-  (* the keys and children *)
   assert (Hb : blen body = n * (8 + 8 * N.of_nat (length cdims) + 8) + (8 + 8 * N.of_nat (length cdims))).
   { unfold body. rewrite blen_app, blen_enc_key, repeat_length.
     rewrite (blen_enc_entries (length cdims)) by (apply entries_dim; auto). fold n. lia. }
-  assert (Hw : wrap64 (addr + 24) = addr + 24).
-  { unfold wrap64. apply N.mod_small. unfold MAXINT64 in Hm. lia. }
-  rewrite Hw.
-  rewrite (app_assoc pre h (body ++ suf)).
   set (dsz := n * (8 + 8 * N.of_nat (length cdims) + 8) + (8 + 8 * N.of_nat (length cdims))) in *.
-  assert (S1 : addr + 24 = blen (pre ++ h)) by (unfold h; rewrite blen_app, blen_node_header; lia).
+  assert (S1 : addr + 24 = blen (pre ++ node_header n)) by (rewrite blen_app, blen_node_header; lia).
   assert (S2 : dsz = blen body) by (symmetry; exact Hb).
   assert (S3 : dsz <> 0) by (unfold dsz; lia).
   assert (S4 : addr + 24 + dsz <= MAXINT64) by (unfold MAXINT64, dsz in *; lia).
-  rewrite (read_bytes_at_app (pre ++ h) body suf _ _ S1 S2 S3 S4).
+  rewrite (read_bytes_at_app (pre ++ node_header n) body suf _ _ S1 S2 S3 S4).
   unfold n. rewrite Nat2N.id.
   rewrite (parse_entries_enc cdims (repeat U64MAX (length cdims)) es body [] []); auto.
   4:{ fold n. unfold wrap16. rewrite N.mod_small by lia. lia. }
@@ -393,4 +411,96 @@ Proof.
     + apply sort_entries_nonempty; auto.
     + now rewrite sort_entries_length.
     + fold dim. fold buf. rewrite Hbl. exact Hm.
+Qed.
+
+(* ------------------------------------------------------------------ the count field: where the round trip ends *)
+
+(* 65536 entries (any multiple of 65536): the 16-bit count is written as 0, the reader sees an empty leaf and
+   returns NO chunk, without an error - every chunk of the dataset reads back as zeros *)
+Theorem index_count_wraps_refuted cdims es f eof :
+  Forall (fun e => entry_ok (length cdims) e = true) es ->
+  es <> [] -> wrap16 (N.of_nat (length es)) = 0 ->
+  eof + 24 <= MAXINT64 ->
+  exists f' eof',
+    write_index (length cdims) es f eof = Ok (f', eof', eof) /\
+    read_index f' eof 8 cdims = COk [] /\ map (expected_entry cdims) (sort_entries es) <> [].
+Proof.
+  intros He Hne Hw Hm.
+  set (dim := length cdims) in *.
+  set (buf := serialize_leaf dim (sort_entries es)).
+  exists (write_at f eof buf), (wrap64 (eof + blen buf)). split; [|split].
+  - unfold write_index.
+    replace (forallb (fun e => Nat.eqb (length (w_coord e)) dim) es) with true.
+    2:{ symmetry. apply forallb_forall. intros e Hin. apply Nat.eqb_eq.
+        rewrite Forall_forall in He. apply (entry_ok_spec _ _ (He e Hin)). }
+    cbn [negb]. destruct es as [|e0 er]; [congruence|]. cbv zeta. fold dim. fold buf.
+    unfold alloc. replace (blen buf =? 0) with false; [reflexivity|].
+    symmetry. apply N.eqb_neq. unfold buf. rewrite blen_serialize_leaf by (apply sort_entries_Forall; auto). lia.
+  - destruct (write_at_shape f buf eof (serialize_leaf_nonempty _ _)) as (pre & suf & Hws & Hpl).
+    assert (Hfile : write_at f eof buf = pre ++ node_header (N.of_nat (length (sort_entries es))) ++
+              (flat_map enc_entry (sort_entries es) ++ enc_key 0 0 (repeat U64MAX dim)) ++ suf).
+    { rewrite Hws. unfold buf, serialize_leaf. now rewrite <- !app_assoc. }
+    unfold read_index. rewrite Hfile.
+    rewrite (parse_node_hdr cdims (length cdims)) by auto.
+    rewrite sort_entries_length, Hw. cbn [N.eqb]. reflexivity.
+  - intros E. apply map_eq_nil in E. apply (sort_entries_nonempty es Hne E).
+Qed.
+
+(* 65535 entries: the count fits, but the reader sizes its key slice with EntriesUsed+1 in uint16 = 0 and panics
+   storing the first key *)
+Theorem index_65535_refuted cdims es f eof :
+  all_pos cdims = true -> Forall (fun e => entry_ok (length cdims) e = true) es ->
+  N.of_nat (length es) = 65535 ->
+  eof + blen (serialize_leaf (length cdims) es) <= MAXINT64 ->
+  exists f' eof',
+    write_index (length cdims) es f eof = Ok (f', eof', eof) /\
+    read_index f' eof 8 cdims = CPanic.
+Proof.
+  intros Hp He Hn Hm.
+  assert (Hne : es <> []) by (intros ->; cbn in Hn; lia).
+  set (dim := length cdims) in *.
+  set (buf := serialize_leaf dim (sort_entries es)).
+  exists (write_at f eof buf), (wrap64 (eof + blen buf)). split.
+  - unfold write_index.
+    replace (forallb (fun e => Nat.eqb (length (w_coord e)) dim) es) with true.
+    2:{ symmetry. apply forallb_forall. intros e Hin. apply Nat.eqb_eq.
+        rewrite Forall_forall in He. apply (entry_ok_spec _ _ (He e Hin)). }
+    cbn [negb]. destruct es as [|e0 er]; [congruence|]. cbv zeta. fold dim. fold buf.
+    unfold alloc. replace (blen buf =? 0) with false; [reflexivity|].
+    symmetry. apply N.eqb_neq. unfold buf. rewrite blen_serialize_leaf by (apply sort_entries_Forall; auto). lia.
+  - destruct (write_at_shape f buf eof (serialize_leaf_nonempty _ _)) as (pre & suf & Hws & Hpl).
+    pose proof (sort_entries_Forall _ _ He) as Hs.
+    pose proof (sort_entries_length es) as Hsl.
+    rewrite blen_serialize_leaf in Hm by auto.
+    destruct (sort_entries es) as [|s0 sr] eqn:Es; [cbn in Hsl; lia|].
+    set (SS := s0 :: sr) in *.
+    set (body := flat_map enc_entry SS ++ enc_key 0 0 (repeat U64MAX dim)).
+    assert (Hfile : write_at f eof buf = pre ++ node_header (N.of_nat (length SS)) ++ body ++ suf).
+    { rewrite Hws. unfold buf, serialize_leaf. fold SS. unfold body. now rewrite <- !app_assoc. }
+    unfold read_index. rewrite Hfile.
+    rewrite (parse_node_hdr cdims (length cdims)) by (auto; unfold MAXINT64 in *; lia).
+    rewrite Hsl, Hn. change (wrap16 65535) with 65535. cbn [N.eqb Pos.eqb].
+    change (wrap16 (65535 + 1)) with 0.
+    assert (Hb : blen body = 65535 * (8 + 8 * N.of_nat dim + 8) + (8 + 8 * N.of_nat dim)).
+    { unfold body. rewrite blen_app, blen_enc_key, repeat_length.
+      rewrite (blen_enc_entries dim) by (apply entries_dim; auto). rewrite Hsl, Hn. lia. }
+    assert (S1 : eof + 24 = blen (pre ++ node_header 65535)) by (rewrite blen_app, blen_node_header; lia).
+    assert (S2 : 65535 * (8 + 8 * N.of_nat (length cdims) + 8) + (8 + 8 * N.of_nat (length cdims)) = blen body)
+      by (rewrite Hb; fold dim; lia).
+    assert (S3 : 65535 * (8 + 8 * N.of_nat (length cdims) + 8) + (8 + 8 * N.of_nat (length cdims)) <> 0) by lia.
+    assert (S4 : eof + 24 + (65535 * (8 + 8 * N.of_nat (length cdims) + 8) + (8 + 8 * N.of_nat (length cdims))) <= MAXINT64)
+      by (fold dim; unfold MAXINT64 in *; lia).
+    rewrite (read_bytes_at_app (pre ++ node_header 65535) body suf _ _ S1 S2 S3 S4).
+    (* the first iteration of the key loop *)
+    apply Forall_cons_iff in Hs as [Hs0 Hsr].
+    destruct (entry_ok_spec _ _ Hs0) as (E1 & E2 & E3 & E4).
+    change (N.to_nat 65535) with (S (N.to_nat 65534)). cbn [parse_entries].
+    fold dim.
+    replace (blen body <? 0 + (8 + 8 * N.of_nat dim)) with false by (symmetry; apply N.ltb_ge; rewrite Hb; lia).
+    destruct (parse_key_enc cdims (w_nbytes s0) 0 (w_coord s0) body []
+                (le 8 (w_addr s0) ++ flat_map enc_entry sr ++ enc_key 0 0 (repeat U64MAX dim)) 0)
+      as (K1 & K2 & K3); auto; try lia.
+    { unfold body, SS. cbn [flat_map app]. unfold enc_entry at 1. now rewrite <- !app_assoc. }
+    rewrite K1, K2. cbn [obind].
+    rewrite E1 in K3. fold dim in K3. rewrite K3. reflexivity.
 Qed.
